@@ -27,12 +27,17 @@ abbrev W (mem : Mem) (p : BitVec 64) : BitVec 64 := Mem.load64 mem p
 /-- `list_insert`: `if (list->head) list->tail->next = node; else list->head = node; list->tail = node;` -/
 theorem insert_generated (list node : BitVec 64) (mem : Mem) (p : BitVec 64)
     (h1 : sep p list = true) (h2 : sep p (list + 8#64) = true) (h3 : (W mem list == 0#64 || sep p (W mem (list + 8#64))) = true)
-    (h4 : sep p node = true) (hnn : W mem node = 0#64) :
+    (h4 : sep p node = true) (hnn : W mem node = 0#64)
+    -- the list object and the node are different objects
+    (d1 : sep list node = true) (d2 : list ≠ node) (d3 : sep (list + 8#64) node = true) (d4 : list + 8#64 ≠ node) :
     (list_insert list node mem).ub = false ∧ (list_insert list node mem).exh = false ∧
     W (list_insert list node mem).mem p =
       (if p = list + 8#64 then node
        else if W mem list ≠ 0#64 then (if p = W mem (list + 8#64) then node else W mem p)
        else (if p = list then node else W mem p)) := by
+  have cg1 : p = node → Mem.load64 mem p = Mem.load64 mem node := fun e => by rw [e]
+  have cg2 : p = list → Mem.load64 mem p = Mem.load64 mem list := fun e => by rw [e]
+  have cg3 : p = list + 8#64 → Mem.load64 mem p = Mem.load64 mem (list + 8#64) := fun e => by rw [e]
   unfold list_insert W at *
   simp only [Mem.load64_ite, Mem.load64_store64]
   simp only [Mem.sep] at *
@@ -40,12 +45,16 @@ theorem insert_generated (list node : BitVec 64) (mem : Mem) (p : BitVec 64)
 
 /-- `list_push`: `if (list->head) node->next = list->head; else list->tail = node; list->head = node;` -/
 theorem push_generated (list node : BitVec 64) (mem : Mem) (p : BitVec 64)
-    (h1 : sep p list = true) (h2 : sep p (list + 8#64) = true) (h3 : sep p node = true) (hnn : W mem node = 0#64) :
+    (h1 : sep p list = true) (h2 : sep p (list + 8#64) = true) (h3 : sep p node = true) (hnn : W mem node = 0#64)
+    (d1 : sep list node = true) (d2 : list ≠ node) (d3 : sep (list + 8#64) node = true) (d4 : list + 8#64 ≠ node) :
     (list_push list node mem).ub = false ∧ (list_push list node mem).exh = false ∧
     W (list_push list node mem).mem p =
       (if p = list then node
        else if W mem list ≠ 0#64 then (if p = node then W mem list else W mem p)
        else (if p = list + 8#64 then node else W mem p)) := by
+  -- congruence of the opaque loads (bv_decide treats `load64 mem x` as atoms)
+  have cg1 : p = node → Mem.load64 mem p = Mem.load64 mem node := fun e => by rw [e]
+  have cg2 : p = list → Mem.load64 mem p = Mem.load64 mem list := fun e => by rw [e]
   unfold list_push W at *
   simp only [Mem.load64_ite, Mem.load64_store64]
   simp only [Mem.sep] at *
@@ -97,11 +106,21 @@ theorem iterator_insert_generated (iter node : BitVec 64) (mem : Mem) (p : BitVe
     (h4 : sep (iter + 8#64) (W mem iter) = true) (h5 : sep (iter + 8#64) node = true)
     (h6 : iter + 8#64 ≠ W mem iter) (h7 : iter + 8#64 ≠ node)
     -- the API's precondition (`assert(NULL == node->next)`) and scope (the node is not the one the iterator hangs off)
-    (hnn : W mem node = 0#64) (hs : sep (W mem iter) node = true) (hne : W mem iter ≠ node) :
+    (hnn : W mem node = 0#64) (hs : sep (W mem iter) node = true) (hne : W mem iter ≠ node)
+    -- the iterator object, the list's tail word, the link and the node are different cells
+    (e1 : sep iter (W mem iter) = true) (e2 : iter ≠ W mem iter) (e3 : sep iter node = true) (e4 : iter ≠ node)
+    (e5 : sep (W mem (iter + 8#64) + 8#64) node = true) (e6 : W mem (iter + 8#64) + 8#64 ≠ node)
+    (e7 : sep (W mem (iter + 8#64) + 8#64) (W mem iter) = true) (e8 : W mem (iter + 8#64) + 8#64 ≠ W mem iter)
+    (e9 : sep iter (W mem (iter + 8#64) + 8#64) = true) (e10 : iter ≠ W mem (iter + 8#64) + 8#64)
+    (e11 : sep (iter + 8#64) (W mem (iter + 8#64) + 8#64) = true) (e12 : iter + 8#64 ≠ W mem (iter + 8#64) + 8#64) :
     (list_iterator_insert iter node mem).ub = false ∧ (list_iterator_insert iter node mem).exh = false ∧
     W (list_iterator_insert iter node mem).mem p =
       (if W mem (W mem iter) = 0#64 ∧ p = W mem (iter + 8#64) + 8#64 then node
        else if p = node then W mem (W mem iter) else if p = W mem iter then node else W mem p) := by
+  have cg1 : p = node → Mem.load64 mem p = Mem.load64 mem node := fun e => by rw [e]
+  have cg2 : p = Mem.load64 mem iter → Mem.load64 mem p = Mem.load64 mem (Mem.load64 mem iter) := fun e => by rw [e]
+  have cg3 : p = iter → Mem.load64 mem p = Mem.load64 mem iter := fun e => by rw [e]
+  have cg4 : p = iter + 8#64 → Mem.load64 mem p = Mem.load64 mem (iter + 8#64) := fun e => by rw [e]
   unfold list_iterator_insert W at *
   simp only [Mem.load64_ite, Mem.load64_store64]
   simp only [Mem.sep] at *
@@ -321,8 +340,13 @@ theorem insert_tie (L : Lay) (hL : L.WF) (mem : Mem) (h : Heap) (hR : Rep L mem 
       cases hok
   have hnn : W mem (L.A (.next n)) = 0#64 := by rw [hR (.next n) hn]; simp only [val, hnone, encN]
   have hn' : L.ok (.next n) := hn
+  have ht' : L.ok (.tail l) := hl
+  have dd1 : sep (L.A (.head l)) (L.A (.next n)) = true := A_sep L hL _ _ hl hn'
+  have dd2 : L.A (.head l) ≠ L.A (.next n) := by rw [Ne, A_inj L hL _ _ (show L.ok (.head l) from hl) hn']; simp
+  have dd3 : sep (L.A (.head l) + 8#64) (L.A (.next n)) = true := by rw [A_tail L hL l hl]; exact A_sep L hL _ _ ht' hn'
+  have dd4 : L.A (.head l) + 8#64 ≠ L.A (.next n) := by rw [A_tail L hL l hl, Ne, A_inj L hL _ _ ht' hn']; simp
   have g0 := fun h3 => insert_generated (L.A (.head l)) (L.A (.next n)) mem (L.A (.head l)) (A_sep L hL _ _ hl hl)
-    (by rw [A_tail L hL l hl]; exact A_sep L hL (.head l) (.tail l) hl hl) h3 (A_sep L hL (.head l) _ hl hn') hnn
+    (by rw [A_tail L hL l hl]; exact A_sep L hL (.head l) (.tail l) hl hl) h3 (A_sep L hL (.head l) _ hl hn') hnn dd1 dd2 dd3 dd4
   unfold Librfn.Model.ListHeap.insert at hok
   split at hok
   · cases hok
@@ -337,7 +361,7 @@ theorem insert_tie (L : Lay) (hL : L.WF) (mem : Mem) (h : Heap) (hR : Rep L mem 
       · exact (g0 (by rw [hz]; rfl)).2.1
       · intro c hc
         have key := (insert_generated (L.A (.head l)) (L.A (.next n)) mem (L.A c) (A_sep L hL _ _ hc hl)
-          (by rw [A_tail L hL l hl]; exact A_sep L hL c (.tail l) hc hl) (by rw [hz]; rfl) (A_sep L hL c _ hc hn') hnn).2.2
+          (by rw [A_tail L hL l hl]; exact A_sep L hL c (.tail l) hc hl) (by rw [hz]; rfl) (A_sep L hL c _ hc hn') hnn dd1 dd2 dd3 dd4).2.2
         rw [key, hz, A_tail L hL l hl, val_setTail, val_setHead, hR c hc]
         simp only [A_inj L hL c (.tail l) hc hl, A_inj L hL c (.head l) hc hl, ne_eq, not_true_eq_false, if_false, encT, encN]
     | some x =>
@@ -360,7 +384,7 @@ theorem insert_tie (L : Lay) (hL : L.WF) (mem : Mem) (h : Heap) (hR : Rep L mem 
           closed_setTail L _ (closed_setNext L h hC t _ (by intro m e; cases e; exact hn)) l _ hn⟩
         intro c hc
         have key := (insert_generated (L.A (.head l)) (L.A (.next n)) mem (L.A c) (A_sep L hL _ _ hc hl)
-          (by rw [A_tail L hL l hl]; exact A_sep L hL c (.tail l) hc hl) (hs c hc) (A_sep L hL c _ hc hn') hnn).2.2
+          (by rw [A_tail L hL l hl]; exact A_sep L hL c (.tail l) hc hl) (hs c hc) (A_sep L hL c _ hc hn') hnn dd1 dd2 dd3 dd4).2.2
         rw [key, htl, A_tail L hL l hl, val_setTail, val_setNext, hR c hc]
         simp only [A_inj L hL c (.tail l) hc hl, A_inj L hL c (.next t) hc htk, ne_eq, hnz, not_false_eq_true, if_true, encT, encN]
 
@@ -379,8 +403,14 @@ theorem push_tie (L : Lay) (hL : L.WF) (mem : Mem) (h : Heap) (hR : Rep L mem h)
       rw [if_pos (by rw [e]; simp)] at hok
       cases hok
   have hnn : W mem (L.A (.next n)) = 0#64 := by rw [hR (.next n) hn]; simp only [val, hnone, encN]
+  have hn' : L.ok (.next n) := hn
+  have ht' : L.ok (.tail l) := hl
+  have dd1 : sep (L.A (.head l)) (L.A (.next n)) = true := A_sep L hL _ _ hl hn'
+  have dd2 : L.A (.head l) ≠ L.A (.next n) := by rw [Ne, A_inj L hL _ _ (show L.ok (.head l) from hl) hn']; simp
+  have dd3 : sep (L.A (.head l) + 8#64) (L.A (.next n)) = true := by rw [A_tail L hL l hl]; exact A_sep L hL _ _ ht' hn'
+  have dd4 : L.A (.head l) + 8#64 ≠ L.A (.next n) := by rw [A_tail L hL l hl, Ne, A_inj L hL _ _ ht' hn']; simp
   have gen := fun c (hc : L.ok c) => push_generated (L.A (.head l)) (L.A (.next n)) mem (L.A c) (A_sep L hL _ _ hc hl)
-    (by rw [A_tail L hL l hl]; exact A_sep L hL c (.tail l) hc hl) (A_sep L hL c (.next n) hc hn) hnn
+    (by rw [A_tail L hL l hl]; exact A_sep L hL c (.tail l) hc hl) (A_sep L hL c (.next n) hc hn) hnn dd1 dd2 dd3 dd4
   refine ⟨(gen (.head l) hl).1, (gen (.head l) hl).2.1, ?_⟩
   unfold push at hok
   split at hok
@@ -448,6 +478,9 @@ def cellOf : Link → Cell
 def okLink (L : Lay) : Link → Prop
   | .headOf l => L.okL l
   | .nextOf n => L.okN n
+
+theorem cellOf_ne_tail (k : Link) (l : Lid) : cellOf k ≠ .tail l := by
+  cases k <;> simp [cellOf]
 
 theorem okLink_ok (L : Lay) (k : Link) (h : okLink L k) : L.ok (cellOf k) := by
   cases k <;> exact h
@@ -576,6 +609,12 @@ theorem iterator_insert_tie (L : Lay) (hL : L.WF) (mem : Mem) (h : Heap) (hR : R
       (by rw [hpn]; exact fun e => hF.n8 _ hkc e.symm) (fun e => hF.n8 _ hn' e.symm)
       (by rw [hR (.next n) hn]; simp only [val, hnone, encN]) (by rw [hpn]; exact A_sep L hL _ _ hkc hn')
       (by rw [hpn, Ne, A_inj L hL _ _ hkc hn']; exact hself)
+      (by rw [hpn, sep_comm]; exact hF.s0 _ hkc) (by rw [hpn]; exact fun e => hF.n0 _ hkc e.symm)
+      (by rw [sep_comm]; exact hF.s0 _ hn') (fun e => hF.n0 _ hn' e.symm)
+      (by rw [hlt]; exact A_sep L hL _ _ ht' hn') (by rw [hlt, Ne, A_inj L hL _ _ ht' hn']; simp)
+      (by rw [hlt, hpn]; exact A_sep L hL _ _ ht' hkc) (by rw [hlt, hpn, Ne, A_inj L hL _ _ ht' hkc]; exact fun e => cellOf_ne_tail _ _ e.symm)
+      (by rw [hlt, sep_comm]; exact hF.s0 _ ht') (by rw [hlt]; exact fun e => hF.n0 _ ht' e.symm)
+      (by rw [hlt, sep_comm]; exact hF.s8 _ ht') (by rw [hlt]; exact fun e => hF.n8 _ ht' e.symm)
   have gc := fun c (hc : L.ok c) => gen (L.A c) (A_sep L hL c _ hc hkc) (A_sep L hL c _ hc hn') (A_sep L hL c _ hc ht')
   have g0 := gc _ hn'
   have hcv : ∀ m, load h it.prevnext = some m → L.okN m := fun m e => load_ok L h hC _ hk m e
@@ -628,9 +667,6 @@ theorem encT_eq_next (L : Lay) (hL : L.WF) (t : Tail) (ht : okT L t) (c0 : Node)
     simp only [encT, reduceCtorEq, iff_false]
     rw [A_inj L hL (.head l) (.next c0) ht hc0]
     simp
-
-theorem cellOf_ne_tail (k : Link) (l : Lid) : cellOf k ≠ .tail l := by
-  cases k <;> simp [cellOf]
 
 /-- **tie T, `list_iterator_remove`** (the iterator stands before a node, which is not its own successor) -/
 theorem iterator_remove_tie (L : Lay) (hL : L.WF) (mem : Mem) (h : Heap) (hR : Rep L mem h) (hC : Closed L h)
